@@ -1,9 +1,9 @@
 package scen
 
 import (
-	"fmt"
 	"context"
 	"errors"
+	"fmt"
 	"io"
 	"sync"
 	"testing/synctest"
